@@ -46,9 +46,9 @@ def judge_fof(ctx, n, res, rp):
         c = mk(n)
         keep = list(c)
         check(ctx, f"chao1({cont} {n})", lambda: prs.chao1(c), res["chao1"], f"chao1/{cont}", rp)
-        check(ctx, f"chao2({cont} {n}, 5)", lambda: prs.chao2(c, 5), res["chao2"], f"chao2/{cont}", rp)
+        check(ctx, f"chao2({cont} {n}, 5)", lambda: prs.chao2(c, (5, 1, 12)[len(n) % 3]), res["chao2"], f"chao2/{cont}", rp)
         check(ctx, f"var_chao1({cont} {n})", lambda: prs.var_chao1(c), res["var"], f"var_chao1/{cont}", rp)
-        check(ctx, f"var_chao2({cont} {n}, 5)", lambda: prs.var_chao2(c, 5), res["var"], f"var_chao2/{cont}", rp)
+        check(ctx, f"var_chao2({cont} {n}, 5)", lambda: prs.var_chao2(c, (5, 2, 30)[len(n) % 3]), res["var"], f"var_chao2/{cont}", rp)
         if list(c) != keep:
             ctx.violation(f"chao/{cont}/argument_mutated", f"a chao function modified its count vector {keep} -> {list(c)}", rp)
 
